@@ -72,10 +72,8 @@ def run_mc(rep: Report, cfg: str, coverage: bool) -> list[dict]:
             raise tlc.MachineryError(f"MC_Tty explored only {sorted(ops)}")
         if not any(not s["intime"] for s in scens) or not any(s["intime"] and s["exp"]["elapsed"] > 0 for s in scens):
             raise tlc.MachineryError("MC_Tty: no late / no delayed in-time schedule explored (vacuous)")
-        if coverage:
-            for act in ("Tcgetattr", "Tcsetattr", "Write", "Tcdrain", "Select", "Read", "Monotonic", "Termsize", "Ioctl"):
-                if act in res.coverage and res.coverage[act][1] == 0:
-                    raise tlc.MachineryError(f"MC_Tty: action {act} never taken")
+        if coverage and res.coverage.get("Sys", (1, 1))[1] == 0:
+            raise tlc.MachineryError("MC_Tty: the system-call action was never taken")
     return scens
 
 
@@ -303,6 +301,17 @@ def main(rep: Report, replay: dict | None) -> None:
                               json.dumps(scn["win"]), scn["swap"]))
         if ok:
             runs.append((scn, run))
+    # vacuity of the model's actions, measured on the replayed behaviours (their call logs equal
+    # the model's: same number of calls, same results): every kind of system call was taken
+    kinds: dict[str, int] = {}
+    for _scn, run in runs:
+        for ev in run["events"]:
+            kinds[ev["call"]] = kinds.get(ev["call"], 0) + 1
+    rep.extra["calls_replayed"] = kinds
+    if not rep.violations:
+        for c in ("tcgetattr", "tcsetattr", "write", "tcdrain", "select", "read", "monotonic", "termsize", "ioctl"):
+            if not kinds.get(c):
+                raise tlc.MachineryError(f"no behaviour of MC_Tty performs {c} (vacuous action)")
     rep.traces_validated += len(runs)  # replayed paths whose projection equalled the spec's
     rep.extra["replayed_behaviours"] = len(scens)
     rep.extra["replay_wall_s"] = round(time.time() - t0, 1)
